@@ -54,7 +54,7 @@ pub fn property() -> Property {
       name: "fault plan, then fault-free rounds to a fixpoint",
       quick: 1_200,
       thorough: 30_000,
-      max_len: 500,
+      max_len: 1100,
       max_threads: 0,
     }],
     run,
@@ -362,8 +362,20 @@ pub fn run(_scenario: u32, choices: &[u8], _strict: bool) -> Outcome {
       }
     })
     .collect();
+  // (drawn here, used after the faulty phase: the position in the choice stream is unchanged)
+  let keep = c.bool();
+  // (drawn last) directed writes: with two readers, some samples are written for one of them
+  // only; the other one is sent a GAP for them and must come to know them as unavailable
+  let mut directed: BTreeMap<usize, usize> = BTreeMap::new(); // index of the Write step -> reader
+  if nreaders == 2 && c.chance(100) {
+    let writes: Vec<usize> = steps.iter().enumerate().filter(|(_, s)| matches!(s, Step::Write(_))).map(|(i, _)| i).collect();
+    for _ in 0..1 + c.pick(3) {
+      let i = writes[c.pick(writes.len())];
+      directed.insert(i, c.pick(2));
+    }
+  }
   o.sample = format!(
-    "fragment_size={fsize} history={history:?} readers={nreaders} steps={steps:?} faults={:?}",
+    "fragment_size={fsize} history={history:?} readers={nreaders} steps={steps:?} directed={directed:?} faults={:?}",
     plan
       .iter()
       .enumerate()
@@ -390,7 +402,8 @@ pub fn run(_scenario: u32, choices: &[u8], _strict: bool) -> Outcome {
   let mut plan_pos = 0usize;
 
   // ---------------------------------------------------------------- faulty phase
-  for step in &steps {
+  let mut meant_for: BTreeMap<i64, usize> = BTreeMap::new();
+  for (stepno, step) in steps.iter().enumerate() {
     match step {
       Step::Write(len) => {
         last_sn += 1;
@@ -402,7 +415,14 @@ pub fn run(_scenario: u32, choices: &[u8], _strict: bool) -> Outcome {
         };
         let _ = world.wnode.writers[wi].cmd_tx.try_send(WriterCommand::DDSData {
           ddsdata: DDSData::new(sp),
-          write_options: WriteOptionsBuilder::new().build(),
+          write_options: match directed.get(&stepno) {
+            Some(r) => {
+              meant_for.insert(last_sn, *r);
+              o.label("directed-write");
+              WriteOptionsBuilder::new().to_single_reader(world.readers[*r].guid).build()
+            }
+            None => WriteOptionsBuilder::new().build(),
+          },
           sequence_number: SequenceNumber::from(last_sn),
         });
         written.insert(last_sn, p);
@@ -442,7 +462,6 @@ pub fn run(_scenario: u32, choices: &[u8], _strict: bool) -> Outcome {
   }
   // whatever is still in flight when the faults stop is lost or late: drop a
   // generated part of it, deliver the rest
-  let keep = c.bool();
   if !keep {
     world.dropped += world.in_flight.len();
     world.in_flight.clear();
@@ -492,7 +511,7 @@ pub fn run(_scenario: u32, choices: &[u8], _strict: bool) -> Outcome {
     let mut why = String::new();
     for (i, r) in world.readers.iter().enumerate() {
       for sn in &history {
-        if !r.got.contains_key(sn) {
+        if !r.got.contains_key(sn) && meant_for.get(sn).map_or(true, |m| *m == i) {
           all_ok = false;
           why = format!("reader {i} still lacks sample {sn} held by the writer");
         }
